@@ -15,7 +15,9 @@ Spec:   CimTypesInt.tla      <<anchor, delta>> numbers, Accept(type, v), the
         CimTypesDateTimeMC   TLC: Len(Str(x)) = 25 and Parse(Str(x)) = x over
                              the field boundary classes x offsets x legal
                              precisions; the law is closed under single-symbol
-                             mutations; copy keeps the value
+                             mutations; copy keeps the value; a datetime
+                             object prints as its DSP0004 string under every
+                             tzinfo carrier class (CtorHolds)
         CimTypesReal.tla     class table + DSP0201 spelling; requirement
         CimTypesTrace.tla    TraceKit: one observed vector per trace
 Binding: TLC writes the table cells / abstract datetime values / mutated
@@ -48,6 +50,9 @@ DT_REGRESSIONS = (
      "minutes_from_utc without the negative-offset correction"),
     ("CimTypesDateTimeImplPinnedCopy.cfg", "CopySame",
      "CIMDateTime(other) drops precision (pinned tree)"),
+    ("CimTypesDateTimeImplForeignTzSeconds.cfg", "CtorHolds",
+     "CIMDateTime(datetime) replaces a foreign tzinfo by "
+     "MinutesFromUTC(utcoffset().seconds // 60)"),
 )
 
 
@@ -82,8 +87,9 @@ def model_check(ctx, quick):
             "CimTypesDateTimeImpl.cfg" if quick
             else "CimTypesDateTimeImplBig.cfg",
             env={"EMIT_DIR": dt_dir}, timeout=3000,
-            label="Len(Str(x))=25, Parse(Str(x))=x, copy, closure under "
-            "single-symbol mutations on the transcribed CIMDateTime")
+            label="Len(Str(x))=25, Parse(Str(x))=x, copy, datetime objects "
+            "under every tzinfo carrier class, closure under single-symbol "
+            "mutations on the transcribed CIMDateTime")
     for cfg, inv, what in DT_REGRESSIONS:
         r = ctx.tlc("CimTypesDateTimeMC", cfg, must_pass=False, count=False,
                     label="regression config: " + what)
@@ -97,7 +103,11 @@ def model_check(ctx, quick):
     if not cells or not dts:
         raise vlib.MachineryError("TLC emitted no inputs (%d cells, %d "
                                   "datetime items)" % (len(cells), len(dts)))
-    return cells, dts
+    with open(os.path.join(dt_dir, "carriers.tab")) as f:
+        carriers = {c: set(offs) for c, offs in json.load(f).items()}
+    if not any(it["cs"] for it in dts) or len(carriers) < 5:
+        raise vlib.MachineryError("TLC emitted no tzinfo carrier classes")
+    return cells, dts, carriers
 
 
 def tables(ctx):
@@ -200,22 +210,29 @@ def store_vectors(ctx, cells, nrandom):
     return vecs
 
 
-def dt_vectors(ctx, items, nrandom):
+def dt_vectors(ctx, items, carriers, nrandom):
     vecs = []
+    missing = [c for c in sorted(carriers) if not H.carrier_available(c)]
+    if missing:
+        ctx.assumptions.append("tzinfo carrier class(es) %s not available in "
+                               "this python and not exercised" % missing)
     for it in items:
         if it["m"]:
             ev, desc = H.dt_vector_for_mutation(it["m"])
             vecs.append((ev, desc, {"kind": "dt", "how": "mut",
                                     "m": "".join(it["m"])}))
         else:
-            for ev, desc in H.dt_vectors_for_value(ctx.rng, it["x"], it["s"]):
+            for ev, desc in H.dt_vectors_for_value(ctx.rng, it["x"], it["s"],
+                                                   it["cs"]):
                 vecs.append((ev, desc, {"kind": "dt", "how": "value",
-                                        "x": it["x"], "s": "".join(it["s"])}))
+                                        "x": it["x"], "s": "".join(it["s"]),
+                                        "cs": it["cs"]}))
     for _ in range(nrandom):
         x, prec = H.random_dt_value(ctx.rng)
-        for ev, desc in H.random_dt_vectors(ctx.rng, x, prec):
+        carrier = H.pick_carrier(ctx.rng, carriers, x["off"])
+        for ev, desc in H.random_dt_vectors(ctx.rng, x, prec, carrier):
             vecs.append((ev, desc, {"kind": "dt", "how": "random", "x": x,
-                                    "prec": prec}))
+                                    "prec": prec, "carrier": carrier}))
     return vecs
 
 
@@ -234,12 +251,12 @@ def real_vectors(ctx, tab, n):
 
 def run(ctx):
     quick = ctx.tier == "quick"
-    cells, dts = model_check(ctx, quick)
+    cells, dts, carriers = model_check(ctx, quick)
     tab = tables(ctx)
     if tab["maxdelta"] != H.MAXDELTA:
         raise vlib.MachineryError("MaxDelta of the spec and the harness differ")
     sv = store_vectors(ctx, cells, 4000 if quick else 60000)
-    dv = dt_vectors(ctx, dts, 1500 if quick else 40000)
+    dv = dt_vectors(ctx, dts, carriers, 1500 if quick else 40000)
     rv = real_vectors(ctx, tab, 40 if quick else 2500)
     judge(ctx, sv, "decision-table vectors observed on the real code")
     judge(ctx, dv, "CIMDateTime vectors observed on the real code")
@@ -259,6 +276,9 @@ def run(ctx):
     ctx.extra["datetime_vectors"] = {
         "tlc_items": len(dts), "total": len(dv),
         "by_route": count(dv, lambda e: e["route"]),
+        "datetime_objects_by_tzinfo_carrier": count(
+            [v for v in dv if v[0]["route"] == "datetime"],
+            lambda e: e["carrier"]),
         "built": count(dv, lambda e: e["built"])}
     ctx.extra["real_vectors"] = {
         "total": len(rv), "by_type": count(rv, lambda e: e["t"]),
@@ -279,6 +299,10 @@ def run(ctx):
         "only the failure mode of rejected values is judged (TypeError/"
         "ValueError); that in-range values are accepted is compared with the "
         "code-shaped model and reported as impl drift, not as a violation",
+        "datetime: for x built from a datetime/timedelta OBJECT 'the value of "
+        "x' is the value of that object (whatever tzinfo class carries its "
+        "UTC offset): str(x) must be the DSP0004 string of it; zoneinfo is "
+        "represented by the fixed-offset zones Etc/GMT+12..Etc/GMT-14 only",
         "datetime: a constructor that raises produces no CIMDateTime x, so "
         "rejecting a legal DSP0004 string is impl drift unless another route "
         "builds the same value (then the round trip fails)",
@@ -307,9 +331,12 @@ def replay(rep):
         if rec["how"] == "mut":
             vecs.append(H.dt_vector_for_mutation(list(rec["m"])))
         elif rec["how"] == "value":
-            vecs += H.dt_vectors_for_value(rng, rec["x"], list(rec["s"]))
+            vecs += H.dt_vectors_for_value(rng, rec["x"], list(rec["s"]),
+                                           rec.get("cs", ["MinutesFromUTC",
+                                                          "timezone"]))
         else:
-            vecs += H.random_dt_vectors(rng, rec["x"], rec["prec"])
+            vecs += H.random_dt_vectors(rng, rec["x"], rec["prec"],
+                                        rec.get("carrier", "timezone"))
     else:
         x = float.fromhex(rec["hex"])
         vecs.append(H.run_real(rng, rec["t"], rec["cls"], rec["route"], x))
